@@ -38,8 +38,7 @@ Qed.
 
 Lemma fx_neg_ok q : -2147483647 <= q <= 2147483648 -> fx_neg 32 q = Some (- q).
 Proof.
-  intros H. unfold fx_neg, chk_s, in_s. change (2 ^ (32 - 1)) with 2147483648.
-  destruct ((- (2147483648) <=? - q) && (- q <? 2147483648)) eqn:E; [reflexivity|lia].
+  intros H. unfold fx_neg. rewrite wrap_s32_id by (unfold i32; lia). reflexivity.
 Qed.
 
 (* closed form of the result *)
